@@ -351,3 +351,13 @@ Proof.
   destruct (existsb is_flash (st_caps stf)); [right; right; reflexivity|].
   destruct (st_caps stf) as [|c t]; [destruct caps; [congruence|discriminate]|]. left. eexists. reflexivity.
 Qed.
+
+(* in the terms of the boolean the harness evaluates (request 1705): on the domain, the composition check succeeds as soon as
+   the reader model returns captions *)
+Theorem roundtrip_ok_when_read : forall caps pcs, caps_ok caps -> reread caps = RRRead (ROk pcs) -> roundtrip_ok caps = true.
+Proof.
+  intros caps pcs H E. unfold roundtrip_ok.
+  assert (O : reread_obs caps = Some (map obs pcs)) by (unfold reread_obs; rewrite E; reflexivity).
+  rewrite O. change (map (fun c => mkCue (w_text c) (w_start c) (w_end c)) caps) with (map to_cue caps).
+  rewrite (reread_conditional caps _ H O). reflexivity.
+Qed.
